@@ -20,6 +20,11 @@ Both families also contain two environment families (tape-chosen per run):
   * (b) limit changes over the whole legal range of adjustPoolsize - including 0 ("no workers at all") and the forms that
     give only one of the two values - checked against a harness-side model of the limit in force (the value last
     requested), never against the pool's own attributes.
+(b) also varies the CALLER's side of a submission (tape-chosen per run and per submission): onResult callbacks that themselves
+raise - an Exception or a bare BaseException, every time they are called or only the first time, after a function that succeeded as
+well as after one that failed - and plain callInThread submissions (no callback).  Every call of a callback is recorded before the
+callback does anything else: a second report is a violation the moment it is made; whatever a task or a callback raises must stay
+inside the pool thread's loop (the thread serves the next task, stop() still joins it).
 """
 from twisted._threads import _pool, AlreadyQuit
 from twisted.python import log as _tplog, threadpool
@@ -39,12 +44,16 @@ COMPONENTS = {"real": ["twisted._threads._team.Team", "twisted._threads._pool.po
               "stub": ["family a: worker threads (in-memory workers stepped by the scheduler)",
                        "family b: OS thread scheduling and Thread/Queue/Lock/local (detsim.threads baton objects)"]}
 RULE = ("run = family a: 4..30 tape-chosen operations (do task that succeeds/raises, grow, shrink, quit, late do, 'worker i executes its next queued item') on a Team built by the real pool(); "
-        "family b: 1..3 caller threads issuing callInThreadWithCallback/adjustPoolsize (max 0..3, min 0..max, both values or only one)/startAWorker/stopAWorker concurrently with pool threads, then stop(); "
+        "family b: 1..3 caller threads issuing callInThreadWithCallback (in 2 of 3 runs 30%/60% of the onResult callbacks raise - Exception or bare BaseException, always or on their first call only - "
+        "whether the function succeeded or failed; in half of the runs 20% of the submissions are plain callInThread)/adjustPoolsize (max 0..3, min 0..max, both values or only one)/startAWorker/stopAWorker concurrently with pool threads, then stop(); "
         "both: in some runs the worker factory (a: createWorker's worker class, b: ThreadPool.threadFactory) raises with tape-drawn probability; "
         "non-trivial = some task had to wait in the backlog or a shrink/limit change happened while a worker was busy, or (b) a line-level pre-emption fired")
 ASSUMPTIONS = ["family a: the limit function is constant per run", "tasks do not submit further tasks",
                "a worker creation fails by the factory raising before any thread object exists (a Thread whose start() fails stays in ThreadPool.threads and makes "
                "stop() raise from join() on the unchanged tree; the statement is silent on that, so that variant is not injected)",
+               "what the pool logs (an exception escaping from an onResult callback, the failure of a function submitted without a callback) is recorded instead of printed "
+               "(Team._logException and twisted.python.log.err are replaced for the run); the statement says nothing about logging, so no clause reads that record",
+               "an onResult callback that raises has still been told the outcome: it owes the pool nothing and must not be called again",
                "family b: the limit in force is a well-defined number only while no adjustPoolsize/start/stop is in flight; creations that overlap one get no verdict; "
                "tasks that never ran get no verdict when the limit may have been 0 at stop(), when overlapping limit setters left a set of possible limits containing 0, "
                "or when start() was aborted by a torn (min, max) pair / a failed worker creation"]
@@ -710,4 +719,9 @@ MUTANTS = [
     "all-workers-stopped-after-quit:team / accepted-task-ran-and-reported-once:threadpool",
     "threadpool.adjustPoolsize + `grow(0); grow(backlog)` after the min/max adjustment (candidate repair of limit-raised-from-zero) -> check holds with ZERO_RAISE_KEEPS_MIN0_P = 1.0; "
     "without the serialising grow(0) a submission pre-empted between the limit read and the backlog append is still stranded -> CAUGHT",
+    "round 5 (raising onResult callbacks, callback-less submissions, pool-thread containment):",
+    "threadpool.inContext: onResult(True, result) called inside the try whose except arm reports (False, Failure()) -> CAUGHT result-exactly-once:threadpool",
+    "threadpool.inContext: `inContext.onResult(ok, result)` wrapped in try/except Exception that reports (False, Failure()) to the same callback -> CAUGHT result-exactly-once:threadpool",
+    "_team doWork: except BaseException -> except Exception -> now also CAUGHT in family b (task-exception-escaped:threadpool:BaseException: a callback raising a bare BaseException ends the pool thread)",
+    "threadpool.inContext: `elif not ok` -> `else` (log.err for every callback-less task) -> survives (logging only: outside the statement)",
 ]
